@@ -71,6 +71,8 @@ func checkC09(p *Prog, r *Report) {
 	concurrently; C10's rule, under this property's reporting clause). */
 	checkC10Scratch(p, r, r.Rule("notice-text-owned", "the text of a request's notice is built in memory of the call which sends it, never in a buffer shared between concurrent requests"))
 
+	checkC09NoticeKept(p, r, r.Rule("notice-not-droppable", "a notice on its way to the operator is not given up when the request's own context ends (a client which hangs up early still asked for the file)"))
+
 	fdir := p.Field(hsrvPkg, "Server", "fdir")
 	tmplf := p.Field(hsrvPkg, "Server", "tmplf")
 	if nil == fdir || nil == tmplf {
@@ -569,4 +571,65 @@ func topFn(f *ssa.Function) *ssa.Function {
 		f = f.Parent()
 	}
 	return f
+}
+
+
+// checkC09NoticeKept: where package hsrv sends a line to the operator's
+// channel inside a select, no other arm of that select waits for the end of a
+// request's context: that context is done as soon as the client has gone, and
+// a select with two ready arms picks one at random — the notice of a request
+// which was served is then sometimes dropped.
+func checkC09NoticeKept(p *Prog, r *Report, ru *Rule) {
+	och := p.Field(hsrvPkg, "Server", "och")
+	n := 0
+	for _, fn := range p.Funcs() {
+		if nil == fn.Pkg || !strings.HasSuffix(fn.Pkg.Pkg.Path(), "/"+hsrvPkg) {
+			continue
+		}
+		eachInstr(fn, func(i ssa.Instruction) {
+			sel, ok := i.(*ssa.Select)
+			if !ok {
+				return
+			}
+			sends := false
+			for _, st := range sel.States {
+				if types.SendOnly != st.Dir {
+					continue
+				}
+				if fv, _ := loadedField(resolveCell(st.Chan)); nil != fv && (fv == och || "och" == fv.Name()) {
+					sends = true
+				}
+			}
+			if !sends {
+				return
+			}
+			n++
+			k := fmt.Sprintf("%s:select#%d", fnName(fn), n)
+			bad := false
+			for _, st := range sel.States {
+				if types.RecvOnly != st.Dir {
+					continue
+				}
+				ctx, isDone := isCtxDone(st.Chan)
+				if !isDone {
+					continue
+				}
+				for _, x := range p.rootsUp(valueRoots(ctx, func(s string) bool {
+					return strings.HasPrefix(s, "context.With")
+				}), nil) {
+					if "call" == x.Kind && "(*net/http.Request).Context" == x.Callee {
+						bad = true
+					}
+				}
+			}
+			if bad {
+				ru.Bad(k, posOf(sel), "the send of the notice shares a select with the request's own context: once the client has hung up both arms are ready and the notice is dropped at random, although the request was served")
+			} else {
+				ru.OK(k, posOf(sel), "no arm waits for a request's context")
+			}
+		})
+	}
+	if 0 == n {
+		ru.OK("hsrv:notices-sent-unconditionally", token.NoPos, "notices are sent with plain channel sends")
+	}
 }
